@@ -201,6 +201,8 @@ def run(ctx):
         "EXECUTE of an id the proxy never saw a PREPARE for: the statement leaves the verdict open (proxy cannot know the statement class); only well-framedness and field equality are asserted",
         "the compression flag of a re-encoded (overridden) frame is not asserted; contents below the abstract row are seeded-random, not exhaustive",
     ]
+    from checks import reqfamily as _rf
+    _rf.override_stage(ctx, 'C12', ctx.tier == "thorough")
     ctx.write_evidence("exploration", {
         "evaluations": executed,
         "distinct_nontrivial": sum(len(v) for k, v in seen_shapes.items() if k != "same"),
